@@ -3,10 +3,10 @@
 # Applies each seeded change to /repo, runs the quick check of the property it breaks (and of the other claimed
 # properties listed as argument 2.. via PROPS env), records which obligations fail, and reverts the change.
 cd /verif
-seeds=("$@"); [ ${#seeds[@]} -eq 0 ] && seeds=($(ls seeded | grep -E '^C[0-9]+-[ab]$'))
+seeds=("$@"); [ ${#seeds[@]} -eq 0 ] && seeds=($(ls seeded | grep -E '^C[0-9]+-(r2)?[abc]$'))
 claimed=$(python3 -c "import json;print(' '.join(c['property_id'] for c in json.load(open('MANIFEST.json'))['checks']))")
 for sd in "${seeds[@]}"; do
-  prop=${sd%-*}
+  prop=${sd%%-*}
   [ -n "$(git -C /repo status --porcelain)" ] && { echo "/repo not clean"; exit 2; }
   git -C /repo apply /verif/seeded/$sd/patch.diff || { echo "$sd: patch does not apply"; continue; }
   res=""
